@@ -214,7 +214,7 @@ thread_local! {
 }
 
 fn is_slow_failure(fi: &FailInfo) -> bool {
-    matches!(fi.clause.as_str(), "never_answered" | "slot_leak" | "idle_timeout_missed" | "stall" | "hang" | "no_progress" | "connection_unusable")
+    matches!(fi.clause.as_str(), "never_answered" | "slot_leak" | "idle_timeout_missed" | "stall" | "hang" | "no_progress" | "connection_unusable" | "answered_only_after_more_input" | "complete_request_not_answered" | "busy_connection_dropped" | "observer_disturbed")
 }
 
 /// Known findings file (committed; never written at run time).
